@@ -64,29 +64,30 @@ Qed.
 
 Section L.
 Variable cwd : bytes.
-Variable exec : bytes -> option bytes.
+Variable exec : nat -> bytes -> option bytes.
 
-Lemma load_nodes_app root a : forall vs ts b,
-  load_nodes cwd exec root vs ts (a ++ b) =
-  match load_nodes cwd exec root vs ts a with LOk vs' ts' => load_nodes cwd exec root vs' ts' b | LErr e => LErr e end.
+Lemma load_nodes_app root a : forall k vs ts b,
+  load_nodes cwd exec root k vs ts (a ++ b) =
+  match load_nodes cwd exec root k vs ts a with LOk vs' ts' => load_nodes cwd exec root (k + length a)%nat vs' ts' b | LErr e => LErr e end.
 Proof.
-  induction a as [|n a IH]; intros vs ts b; cbn [app load_nodes]; [reflexivity|].
+  induction a as [|n a IH]; intros k vs ts b; cbn [app load_nodes length]; [rewrite Nat.add_0_r; reflexivity|].
+  replace (k + S (length a))%nat with (S k + length a)%nat by (rewrite Nat.add_succ_r; reflexivity).
   destruct n as [c|nm v|doc name deps outs cmds].
   - apply IH.
-  - destruct (eval_rhs cwd exec v); [apply IH|reflexivity].
+  - destruct (eval_rhs cwd exec k v); [apply IH|reflexivity].
   - destruct (load_task root vs doc name deps outs cmds); [|reflexivity]. destruct (has_ltask ts name); [reflexivity|apply IH].
 Qed.
 
 (* tasks already loaded stay, in order, as a prefix *)
-Lemma load_nodes_grows root nodes : forall vs ts vs' ts', load_nodes cwd exec root vs ts nodes = LOk vs' ts' -> exists more, ts' = ts ++ more.
+Lemma load_nodes_grows root nodes : forall k vs ts vs' ts', load_nodes cwd exec root k vs ts nodes = LOk vs' ts' -> exists more, ts' = ts ++ more.
 Proof.
-  induction nodes as [|n r IH]; intros vs ts vs' ts' H; cbn [load_nodes] in H.
+  induction nodes as [|n r IH]; intros k vs ts vs' ts' H; cbn [load_nodes] in H.
   - inversion H. exists []. rewrite app_nil_r. reflexivity.
   - destruct n as [c|nm v|doc name deps outs cmds].
     + eapply IH; exact H.
-    + destruct (eval_rhs cwd exec v); [eapply IH; exact H|discriminate].
+    + destruct (eval_rhs cwd exec k v); [eapply IH; exact H|discriminate].
     + destruct (load_task root vs doc name deps outs cmds) as [t|]; [|discriminate]. destruct (has_ltask ts name); [discriminate|].
-      destruct (IH _ _ _ _ H) as (more & ->). exists (t :: more). rewrite <- app_assoc. reflexivity.
+      destruct (IH _ _ _ _ _ H) as (more & ->). exists (t :: more). rewrite <- app_assoc. reflexivity.
 Qed.
 
 (* C13 "defined earlier": a task is built with exactly the variables that the part of the file before it defines, and
@@ -96,10 +97,22 @@ Theorem task_sees_earlier_vars root pre doc name deps outs cmds post vs ts :
   exists vs0 ts0 t, load cwd exec root pre = LOk vs0 ts0 /\ load_task root vs0 doc name deps outs cmds = Some t /\
                     In t ts /\ has_ltask ts0 name = false.
 Proof.
-  unfold load. rewrite load_nodes_app. destruct (load_nodes cwd exec root [] [] pre) as [vs0 ts0|e]; [|discriminate].
+  unfold load. rewrite load_nodes_app. destruct (load_nodes cwd exec root 0 [] [] pre) as [vs0 ts0|e]; [|discriminate].
   cbn [load_nodes]. destruct (load_task root vs0 doc name deps outs cmds) as [t|] eqn:Et; [|discriminate].
   destruct (has_ltask ts0 name) eqn:Hd; [discriminate|]. intros H. exists vs0, ts0, t. repeat split; auto.
-  destruct (load_nodes_grows _ _ _ _ _ _ H) as (more & ->). apply in_or_app. left. apply in_or_app. right. left. reflexivity.
+  destruct (load_nodes_grows _ _ _ _ _ _ _ H) as (more & ->). apply in_or_app. left. apply in_or_app. right. left. reflexivity.
+Qed.
+
+(* C13 "evaluated in file order", for exec: the variable defined by statement number k through exec("c") holds the trimmed
+   output of the execution made AT that statement - its own execution, whatever other statements with the same text printed *)
+Theorem exec_var_is_its_own_execution root pre n c vs ts :
+  load cwd exec root (pre ++ [NAssign n (RFunc k_exec [AString c])]) = LOk vs ts ->
+  exists o, exec (length pre) c = Some o /\ lookup_var vs n = Some (trim o).
+Proof.
+  unfold load. rewrite load_nodes_app. destruct (load_nodes cwd exec root 0 [] [] pre) as [vs0 ts0|e]; [|discriminate].
+  cbn [load_nodes eval_rhs string_args Nat.add]. change (bytes_eqb k_exec k_join) with false. change (bytes_eqb k_exec k_exec) with true. cbn iota.
+  destruct (exec (length pre) c) as [o|] eqn:E; [|discriminate].
+  intros H. inversion H; subst. exists o. split; [reflexivity|apply lookup_set_same].
 Qed.
 
 (* no two loaded tasks share a name *)
@@ -130,14 +143,14 @@ Proof.
   - apply IH; [exact ND'|]. intros Hin. apply Hx. right. exact Hin.
 Qed.
 
-Theorem loaded_tasks_distinct root nodes : forall vs ts vs' ts',
-  NoDup (map lt_name ts) -> load_nodes cwd exec root vs ts nodes = LOk vs' ts' -> NoDup (map lt_name ts').
+Theorem loaded_tasks_distinct root nodes : forall k vs ts vs' ts',
+  NoDup (map lt_name ts) -> load_nodes cwd exec root k vs ts nodes = LOk vs' ts' -> NoDup (map lt_name ts').
 Proof.
-  induction nodes as [|n r IH]; intros vs ts vs' ts' ND H; cbn [load_nodes] in H.
+  induction nodes as [|n r IH]; intros k vs ts vs' ts' ND H; cbn [load_nodes] in H.
   - inversion H; subst. exact ND.
   - destruct n as [c|nm v|doc name deps outs cmds].
     + eapply IH; eauto.
-    + destruct (eval_rhs cwd exec v); [eapply IH; eauto|discriminate].
+    + destruct (eval_rhs cwd exec k v); [eapply IH; eauto|discriminate].
     + destruct (load_task root vs doc name deps outs cmds) as [t|] eqn:Et; [|discriminate]. destruct (has_ltask ts name) eqn:Hd; [discriminate|].
       eapply IH; [|exact H]. rewrite map_app. cbn [map]. apply NoDup_snoc; [exact ND|].
       rewrite (load_task_name _ _ _ _ _ _ _ _ Et). apply has_ltask_false. exact Hd.
